@@ -235,7 +235,9 @@ class CellBasis(AbstractBasis):
         assembled with the usual quadratures.
 
         """
-        return self.probes(x[:, None]).toarray()[0]
+        # one row per component of the basis functions
+        return (self.probes(x[:, None]).toarray()
+                .reshape(self._base_tensor_order + (-1,)))
 
     def interpolator(self, y: ndarray) -> Callable[[ndarray], ndarray]:
         """Return a function handle, which can be used for finding
